@@ -25,11 +25,19 @@ TRUSTED = [
     "Coq 8.16.1 kernel + vm_compute (coqchk on the thorough tier)",
     "harness/c14.py: construction of the rdflib graphs from the case, numbering of terms and of canonical labels",
     "hand-written Gallina definitions iso / iso_dec / spec_ok in coq/Iso/Model.v (iso_dec = iso is proved)",
+    "coq/Iso/Canon.v as a transcription of rdflib/compare.py (_TripleCanonicalizer, Color) - tied by suite 'canon' "
+    "(partition after _refine, final verdicts) with an executable hash instance on primitive 63-bit integers (coq/Iso/CanonRun.v)",
     "SHA-256 collisions do not occur on the generated cases (only matters for the reading of a disagreement)",
 ]
 ASSUMPTIONS = [
-    "completeness of rdflib's canonical labelling (isomorphic inputs get equal canonical forms) is NOT proved: "
-    "C14_complete_statement is a Definition; the differential runs against the verified iso_dec are the only evidence",
+    "MA3 (hypothesis of C14_model_isomorphic_sound): a sum of SHA-256 values determines the multiset of hashed strings; "
+    "the rendering of a canonical triple is injective",
+    "MA-set / MA-alias (coq/Iso/Canon.v): Python sets are modelled in first-insertion order (no theorem depends on it; the "
+    "theorems C14_refine_invariant / C14_label_independent_partial are about relabelled copies that keep the order), Color identity "
+    "by position / structural equality, the in-place nodes.extend of the collision merge functionally",
+    "completeness of rdflib's canonical labelling is proved only up to ORDER: label independence of the whole modelled algorithm "
+    "(C14_label_independent_partial); independence of the order of triples / set iteration is NOT proved (and false of the code at "
+    "79109fff, finding FC14c) - C14_complete_statement stays a Definition; the differential runs against iso_dec are the evidence",
     "generated graphs have no blank node in predicate position except the single-triple witness family of finding FC14a "
     "(generalised RDF; the canonicaliser is label-dependent there)",
     "graphs have at most 8 blank nodes (iso_dec by vm_compute; rdflib per-case timeout 20 s)",
@@ -42,7 +50,8 @@ RULE = (
     "matching, cube/Wagner/prism 3-regular graphs, paths, stars, loops, random digraphs, typical RDF shapes with IRIs and literals) "
     "with independently permuted blank labels (disjoint or shared label pools) and insertion orders; half of the pairs are perturbed "
     "by a degree-preserving 2-switch, an edge move or a changed attribute, or pair two different structures of equal degree sequence; "
-    "distinct by full case content; non-trivial = at least two blank nodes in each graph"
+    "distinct by full case content; non-trivial = at least two blank nodes in each graph; suite canon: the same generator restricted "
+    "to <= 6 (quick) / <= 8 (thorough) blank nodes, observing the partition reached by _refine and the verdicts"
 )
 
 # non-blank terms; falsy literals are always in play
@@ -871,7 +880,83 @@ class C14History(Suite):
                 yield dict(case, graphs=gs)
 
 
-SUITES = [C14(), C14Skolem(), C14History()]
+# ---------------------------------------------------------------------- the canonicaliser model
+class C14Canon(Suite):
+    """coq/Iso/Canon.v (model of _TripleCanonicalizer over an abstract hash) against the real class: the partition
+    _refine reaches from _initial_color (order-free), and the model's own final verdicts"""
+    name = "canon"
+    imports = "From RV Require Import Iso.Model Iso.CanonRun."
+    case_ty = "case"
+    obs_ty = "cobs"
+    model = "canon_model"
+    oeq = "canon_obs_eqb"
+    spec = "canon_spec_ok"
+    kf = "kf"
+    kf_ids = {1: "FC14a"}
+    corr = ("compare._TripleCanonicalizer._initial_color/_refine/_traces/_experimental_path/_create_generator/"
+            "_is_automorphism/canonical_triples/to_hash, Color.distinguish/hash_color/key, isomorphic, IsomorphicGraph.__eq__")
+    quick_n = 40
+    thorough_n = 1500
+    timeout_s = 20.0
+
+    def gen(self, rng, i):
+        iso_suite = SUITES[0]
+        limit = 8 if THOROUGH else 6
+        for _ in range(40):
+            c = iso_suite._gen0(rng, i)
+            if max(nblanks(c["g1"]), nblanks(c["g2"])) <= limit and len(c["g1"]) + len(c["g2"]) <= (60 if THOROUGH else 30):
+                break
+        return {"g1": c["g1"], "g2": c["g2"], "fam": c["fam"]}
+
+    def run_impl(self, case):
+        from rdflib.compare import _TripleCanonicalizer
+
+        def tid(t):
+            if isinstance(t, BNode):
+                s = str.__str__(t)
+                return B(int(s[1:])) if s[:1] == "n" and s[1:].isdigit() else B(999)
+            return C(CONST_ID.get(tkey(t), 998))
+
+        def part(g):
+            c = _TripleCanonicalizer(g)
+            col = c._initial_color()
+            col = c._refine(col, col[:])
+            return sorted(sorted(tid(n) for n in x.nodes) for x in col)
+
+        g1, g2 = build(case["g1"]), build(case["g2"])
+        try:
+            return {"p1": part(g1), "p2": part(g2), "iso": bool(isomorphic(g1, g2)),
+                    "isoeq": bool(to_isomorphic(g1) == to_isomorphic(g2)), "fail": False}
+        except Exception:  # noqa: BLE001
+            return {"p1": [], "p2": [], "iso": False, "isoeq": False, "fail": True}
+
+    def on_timeout(self, case):
+        return {"p1": [], "p2": [], "iso": False, "isoeq": False, "fail": True}
+
+    def coq_case(self, case):
+        return "{| c_g1 := " + c_graph(case["g1"]) + "; c_g2 := " + c_graph(case["g2"]) + " |}"
+
+    def coq_obs(self, o):
+        part = lambda p: clist(clist(c_term(t) for t in cl) for cl in p)  # noqa: E731
+        return "{| q_part1 := %s; q_part2 := %s; q_iso := %s; q_isoeq := %s; q_fail := %s |}" % (
+            part(o["p1"]), part(o["p2"]), cbool(o["iso"]), cbool(o["isoeq"]), cbool(o["fail"]))
+
+    def nontrivial(self, case, obs):
+        return nblanks(case["g1"]) >= 2
+
+    def features(self, case, obs):
+        nd = lambda p: int(any(len(c) > 1 for c in p))  # noqa: E731
+        return {"fam_" + case.get("fam", "?").split("+")[0]: 1, "refine_not_discrete_g1": nd(obs["p1"]),
+                "impl_says_iso": int(obs["iso"]), "classes_g1": len(obs["p1"])}
+
+    def shrink(self, case):
+        for k in ("g1", "g2"):
+            g = case[k]
+            for i in range(len(g)):
+                yield dict(case, **{k: g[:i] + g[i + 1:]})
+
+
+SUITES = [C14(), C14Skolem(), C14History(), C14Canon()]
 
 if __name__ == "__main__" and "--worker" in sys.argv:
     worker_main()
